@@ -72,9 +72,10 @@ PROPS["C13"] = {
                   "RawMachine::cpu_reset", "RawMachine::master_reset", "RawMachine::set_stacksize", "RawMachine::set_programsize",
                   "RawMachine::is_stackpointer_valid", "RawMachine::is_program_counter_valid", "Signals::* (all decoders)",
                   "Machine::set_* (13 setters, f32 arguments over all bit patterns incl. NaN/inf)", "Bus::read / Bus::write at symbolic addresses (through the edge and the getters)"],
+    "verus": "lemmas_induct",
     "timeout": 900,
     "technique": "representation invariant wf preserved + Kani's panic/overflow/bounds obligations on every public mutator from an arbitrary wf state (inductive invariant), Kani/CBMC",
-    "level_text": "Proof: for every public mutator op and every invariant-satisfying machine state (all fields symbolic), op returns normally and re-establishes the invariant; with the base case (power-on state) this covers every RAM image, limit setting and interleaving by induction.",
+    "level_text": "Proof: for every public mutator op and every invariant-satisfying machine state (all fields symbolic), op returns normally and re-establishes the invariant; with the base case (power-on state) this covers every RAM image, limit setting and interleaving by induction (the induction step itself is mechanised in Verus, verus/lemma_induct.rs).",
     "level_note": "Trusted: Kani/CBMC, rustc. Precondition set_stacksize(!= NotSet) is justified at its only call site (Machine::load). Termination of the assembly-step loop is C11's obligation.",
     "samples": [{"obligation": "C13.edge.wf-preserved", "text": "wf(m) ==> trigger_clock_edge(m) returns without panic/overflow/OOB and wf(m')", "domain": "512 micro-addresses x 256 IR x symbolic registers, RAM, latches, limits, board"}],
     "trusted": [],
@@ -88,9 +89,10 @@ PROPS["C05"] = {
     "functions": ["RawMachine::trigger_clock_edge", "RawMachine::is_stackpointer_valid", "RawMachine::is_program_counter_valid",
                   "RawMachine::trigger_key_continue", "RawMachine::trigger_key_edge_interrupt", "RawMachine::cpu_reset/master_reset",
                   "RawMachine::set_stacksize/set_programsize", "Machine::set_* (13 setters)", "Machine::load (limits)"],
+    "verus": "lemmas_induct",
     "timeout": 900,
     "technique": "single-edge postconditions (exact halt clause, absorption as whole-state equality) and an inductive supervision invariant over a fully symbolic machine, Kani/CBMC",
-    "level_text": "Proof: the exact state' clause, the absorbing-halt clause (whole-struct equality) and the invariant 'not error-stopped => SP/PC rules hold' are discharged for one clock edge / key / reset / setter from every invariant-satisfying machine state with symbolic stack and program size; by induction they hold after every history.",
+    "level_text": "Proof: the exact state' clause, the absorbing-halt clause (whole-struct equality) and the invariant 'not error-stopped => SP/PC rules hold' are discharged for one clock edge / key / reset / setter from every invariant-satisfying machine state with symbolic stack and program size; by induction they hold after every history (induction and 'absorbing under any number of edges' mechanised in Verus, verus/lemma_induct.rs).",
     "level_note": "Trusted: Kani/CBMC, rustc. Band constants and 'IR is loaded' (MAC0 & MAC2 & !MAC1) are characterised from the pinned tree; when a limit-breaking commit and a STOP fetch coincide the clause gives the error stop priority.",
     "samples": [{"obligation": "C05.E.halt.edge-changes-nothing", "text": "state != Running ==> trigger_clock_edge(m) == m (all fields)", "domain": "fully symbolic wf machine"},
                 {"obligation": "C05.E.super.error-stop-exactly-when", "text": "Running & no wait ==> (state' == ErrorStopped <=> (commit & !(sp_ok' & pc_ok')) | (IR load & byte == 0))", "domain": "fully symbolic wf machine, 5 stack sizes x Size(0..255)/Auto/NotSet"}],
@@ -122,6 +124,7 @@ PROPS["C14"] = {
     "functions": ["Board::set_temp", "Board::set_analog_input1/2", "Board::set_digital_output1/2", "Board::set_jumper1/2", "Board::set_digital_input1",
                   "Board::set_universal_input_output1/2/3", "Board::set_uor/set_udr/set_icr/delete_int_ff", "Board::get_fan_period",
                   "Board::update_comp1/update_comp2 (through their callers)", "Bus::write 0xF0-0xF3", "Bus::read 0xF0-0xF3"],
+    "verus": "lemmas_induct",
     "timeout": 900,
     "technique": "data-structure invariant (I.board) + exact per-operation postconditions with whole-board frame, f32 arguments fully symbolic (CBMC IEEE-754), Kani/CBMC",
     "level_text": "Proof: every board operation is given its exact post-state (clamping, DAC voltage, comparator bit, exact DAISR = edge raised iff the selected source makes its configured transition, everything else bit-identical) and shown to preserve the board invariant from every invariant-satisfying board, for all byte values and all 2^32 f32 patterns; by induction from Board::new() the statement holds after any sequence.",
